@@ -342,25 +342,27 @@ pub fn archive() -> &'static Archive {
 
 fn build_registry() -> Registry {
     let ctx = Ctx::new("C18", Tier::Quick, 0, true);
+    // the thorough tier sweeps three times as many generated seed files per format
+    let k = global_tier().pick(1usize, 3usize);
     let mut seeds: Vec<SeedFile> = vec![];
-    for (n, b) in crate::props::c06::seed_files(4) {
+    for (n, b) in crate::props::c06::seed_files(4 * k) {
         let marks = vec![0x44u32, 0x40, 0x10, 0x28];
         seeds.push(SeedFile::new("mdl", n, b).magic(4).marks(marks));
     }
     if let Ok(b) = std::fs::read(util::repo_root().join("resources/tests/c0201e0038_top_zeroed.mdl")) {
         seeds.push(SeedFile::new("mdl", "zz-fixture", b).magic(4));
     }
-    let (mtrls, shpks) = crate::props::c14::seed_files(&ctx, 3);
+    let (mtrls, shpks) = crate::props::c14::seed_files(&ctx, 3 * k);
     for (n, b) in mtrls {
         seeds.push(SeedFile::new("mtrl", n, b).magic(4));
     }
     for (n, b) in shpks {
         seeds.push(SeedFile::new("shpk", n, b).magic(4));
     }
-    for (n, b) in crate::props::c13::seed_files(&ctx, 5) {
+    for (n, b) in crate::props::c13::seed_files(&ctx, 5 * k) {
         seeds.push(SeedFile::new("tex", n, b).marks(vec![4, 8, 10, 12, 14, 80]));
     }
-    for (n, exh, exd) in crate::props::c05::seed_files(&ctx, 3) {
+    for (n, exh, exd) in crate::props::c05::seed_files(&ctx, 3 * k) {
         seeds.push(SeedFile::new("exh", n.clone(), exh.clone()).magic(4));
         let mut s = SeedFile::new("exd", n.clone(), exd.clone()).magic(4);
         s.args = vec![exh.clone(), exd.clone()];
@@ -371,7 +373,7 @@ fn build_registry() -> Registry {
         s.target = 0;
         seeds.push(s);
     }
-    let (skels, pbds) = crate::props::c16::seed_files(&ctx, 3);
+    let (skels, pbds) = crate::props::c16::seed_files(&ctx, 3 * k);
     for (n, b) in skels {
         seeds.push(SeedFile::new("sklb", n, b).magic(4));
     }
@@ -718,9 +720,9 @@ pub fn property() -> Property {
             Box::new(Part { name: "leak-probes", driver: Driver::Enum(leak_probes), prop, exhaustive: false }),
             Box::new(Part { name: "truncations", driver: Driver::Enum(truncations), prop, exhaustive: true }),
             Box::new(Part { name: "fields", driver: Driver::Enum(fields), prop, exhaustive: true }),
-            Box::new(Part { name: "archive-random", driver: Driver::Gen(archive_random, 3_000, 60_000), prop, exhaustive: false }),
-            Box::new(Part { name: "random-mutants", driver: Driver::Gen(mutants, 60_000, 1_500_000), prop, exhaustive: false }),
-            Box::new(Part { name: "random-blobs", driver: Driver::Gen(blobs, 4_000, 60_000), prop, exhaustive: false }),
+            Box::new(Part { name: "archive-random", driver: Driver::Gen(archive_random, 3_000, 150_000), prop, exhaustive: false }),
+            Box::new(Part { name: "random-mutants", driver: Driver::Gen(mutants, 60_000, 4_000_000), prop, exhaustive: false }),
+            Box::new(Part { name: "random-blobs", driver: Driver::Gen(blobs, 4_000, 200_000), prop, exhaustive: false }),
         ],
         post: Some(post),
     }
